@@ -14,7 +14,8 @@
 
    A file name is the interned, normalised absolute path (cfdm.abspath); the
    harness interns the strings.  [*_old] definitions are the code as it stood
-   before the repair C10-fix-1 (kept for Refuted.v). *)
+   before the repair C10-fix-1 (kept for Refuted.v).  The file system and the
+   writer are in Fs.v; the writer's treatment of its inputs is in Ident.v. *)
 From CfdmV Require Import Common.Base.
 Open Scope Z_scope.
 
@@ -125,7 +126,9 @@ Inductive op :=
 | ODelBounds (i : nat) (k : string)
 | OSetBounds (dst : nat) (k : string) (src : nat) (k' : string)  (* c.set_bounds(other.bounds) *)
 | OSetBoundsData (dst : nat) (k : string) (src : nat) (s : dsel) (* c.bounds.set_data(<data>) - a transplant *)
-| OTouch (i : nat).               (* in place: to_memory, persist, assignment, .array *)
+| ONewCons (i : nat) (k : string) (* f.set_construct(<a construct made in memory>), e.g. a new cell measure *)
+| OTouch (i : nat).               (* in place: to_memory, persist, assignment, .array, set_property,
+                                     nc_set_variable, nc_set_external *)
 
 Fixpoint kassoc {A} (k : string) (l : list (string * A)) : option A :=
   match l with
@@ -247,6 +250,11 @@ Definition step (e : list field) (o : op) : list field :=
           end
       | _, _ => e
       end
+  | ONewCons i k =>
+      match nth_error e i with
+      | Some f => set_nth i (set_fcons (kremove k (f_cons f) ++ [(k, mkC [] (Some (Plain Mem)) None None)]) f) e
+      | None => e
+      end
   | OTouch _ => e
   end.
 
@@ -310,108 +318,3 @@ Definition field_refb (o p : field) : bool :=
   && cons_list_refb (f_cons o) (f_cons p).
 
 Definition env_refb (o p : list field) : bool := list_eqb field_refb o p.
-
-(* ---- the file system and the writer --------------------------------------- *)
-(* regular files: name -> (content stamp, number of appends since);
-   links: symbolic link name -> name of the regular file it points to. *)
-Record fsys := mkFS { regs : list (fname * (Z * nat)); links : list (fname * fname) }.
-
-Fixpoint zassoc {A} (k : Z) (l : list (Z * A)) : option A :=
-  match l with
-  | [] => None
-  | (k', v) :: r => if Z.eqb k k' then Some v else zassoc k r
-  end.
-
-Fixpoint zremove {A} (k : Z) (l : list (Z * A)) : list (Z * A) :=
-  match l with
-  | [] => []
-  | (k', v) :: r => if Z.eqb k k' then zremove k r else (k', v) :: zremove k r
-  end.
-
-(* os.path.realpath on a file name *)
-Definition real (fs : fsys) (n : fname) : fname :=
-  match zassoc n (links fs) with Some t => t | None => n end.
-
-Definition is_link (fs : fsys) (n : fname) : bool :=
-  match zassoc n (links fs) with Some _ => true | None => false end.
-
-(* os.path.isfile follows links *)
-Definition isfile (fs : fsys) (n : fname) : bool :=
-  match zassoc (real fs n) (regs fs) with Some _ => true | None => false end.
-
-(* os.remove(n): removes the link itself, or the regular file *)
-Definition remove (fs : fsys) (n : fname) : fsys :=
-  if is_link fs n then mkFS (regs fs) (zremove n (links fs))
-  else mkFS (zremove n (regs fs)) (links fs).
-
-(* netCDF4.Dataset(n, "w"): creates or truncates the file the name resolves to *)
-Definition create (fs : fsys) (n : fname) (stamp : Z) : fsys :=
-  let p := real fs n in mkFS ((p, (stamp, O)) :: zremove p (regs fs)) (links fs).
-
-(* netCDF4.Dataset(n, "a") and writing more variables: the existing content stays *)
-Definition append (fs : fsys) (n : fname) : fsys :=
-  let p := real fs n in
-  match zassoc p (regs fs) with
-  | Some (s, k) => mkFS ((p, (s, S k)) :: zremove p (regs fs)) (links fs)
-  | None => fs
-  end.
-
-(* The guard of NetCDFWrite.file_open.
-   Before the repair: abspath(filename) in get_original_filenames(f). *)
-Definition guard_old (fs : fsys) (f : field) (x : fname) : bool :=
-  existsb (Z.eqb x) (field_orig f).
-
-(* After the repair: the original file names and the files still needed by
-   any data, compared by name and by real path. *)
-Definition consulted (f : field) : list fname := field_orig f ++ field_files f.
-
-Definition guard (fs : fsys) (f : field) (x : fname) : bool :=
-  existsb (Z.eqb x) (consulted f)
-  || existsb (Z.eqb (real fs x)) (map (real fs) (consulted f)).
-
-Inductive wmode := MW | MA | MBad.
-(* an option error raised before the append pre-read (mode, hdf5_chunks), one
-   raised after it and before the file is opened (format, attribute lists,
-   'fields' type), or an error raised while variables are being written *)
-Inductive fault := FNone | FEarly1 (e : errk) | FEarly2 (e : errk) | FLate.
-
-Record wopts := mkW { w_mode : wmode; w_overwrite : bool; w_fault : fault }.
-
-Definition late (o : wopts) : option errk :=
-  match w_fault o with FLate => Some OtherErr | _ => None end.
-
-(* NetCDFWrite.write + _file_io_iteration + file_open, for a non-empty
-   sequence of fields.  Returns the file system afterwards and the error
-   class raised, if any. *)
-Definition write_model (G : fsys -> field -> fname -> bool)
-           (fs : fsys) (fields : list field) (x : fname) (o : wopts) (stamp : Z)
-  : fsys * option errk :=
-  match w_mode o with
-  | MBad => (fs, Some ValueErr)
-  | m =>
-    match w_fault o with
-    | FEarly1 e => (fs, Some e)
-    | _ =>
-      match m with
-      | MA =>
-          (* the existing file is read first (dry run, nothing written) *)
-          if negb (isfile fs x) then (fs, Some OtherErr)
-          else match w_fault o with
-               | FEarly2 e => (fs, Some e)
-               | _ => (append fs x, late o)
-               end
-      | _ =>
-          match w_fault o with
-          | FEarly2 e => (fs, Some e)
-          | _ =>
-            let ex := isfile fs x in
-            if ex && negb (w_overwrite o) then (fs, Some OtherErr)
-            else if existsb (fun f => G fs f x) fields then (fs, Some ValueErr)
-            else
-              (* g["overwrite"] is switched off when the file does not exist *)
-              let fs1 := if ex && w_overwrite o then remove fs x else fs in
-              (create fs1 x stamp, late o)
-          end
-      end
-    end
-  end.
